@@ -472,17 +472,12 @@ def check_behaviour(ctx, case, table=None):
 
 
 # ----------------------------------------------------------------------------------------------------------------------
-def run_edit(ctx, lin):
-    """TLC on ModelGeomEdit (deciding configuration, as-built prediction, three deviations - concurrently), then the replay of
-    every behaviour (thorough tier: a seeded sample).  `lin`: the LinEval configurations of part C07 (cross-check of the table).
-    Returns the number of behaviours replayed."""
+def start_tlc(ctx):
+    """Start the five TLC runs of the part (deciding configuration, as-built prediction, three deviations) concurrently, in the
+    background: the caller goes on replaying other parts and hands the handle to run_edit."""
     import os
-    import random
     from concurrent.futures import ThreadPoolExecutor
     from cuqiverif import tlc
-    from cuqiverif.core import MachineryError
-    from cuqiverif.modelgeom_real import rmat, close
-    from cuqiverif.props.c07 import _gid
     tier = ctx.tier
     tag = "%d-%d" % (os.getpid(), id(ctx) % 100000)
 
@@ -494,9 +489,29 @@ def run_edit(ctx, lin):
     jobs += [("main", "decide", None, dict(cfg="ModelGeomEdit.%s.cfg" % tier, workers=4, timeout=1500, extra_modules=EXTRA, workdir=wd("decide"))),
              ("main", "asbuilt", None, dict(cfg="ModelGeomEdit.asbuilt.%s.cfg" % tier, workers=2, timeout=1500, extra_modules=EXTRA,
                                             workdir=wd("asbuilt")))]
-    with ThreadPoolExecutor(max_workers=len(jobs)) as ex:
-        futs = [ex.submit(lambda kw=kw: ctx.tlc(SPEC, **kw)) for _, _, _, kw in jobs]
+    ex = ThreadPoolExecutor(max_workers=len(jobs))
+    futs = [ex.submit(lambda kw=kw: ctx.tlc(SPEC, **kw)) for _, _, _, kw in jobs]
+    return ex, jobs, futs
+
+
+def wait_tlc(started):
+    """the TLC runs have ended (whatever their outcome): nothing is left running in the background"""
+    started[0].shutdown(wait=True)
+
+
+def run_edit(ctx, lin, started=None):
+    """TLC on ModelGeomEdit (see start_tlc), then the replay of every behaviour (thorough tier: a seeded sample).
+    `lin`: the LinEval configurations of part C07 (cross-check of the table).  Returns the number of behaviours replayed."""
+    import random
+    from cuqiverif import tlc
+    from cuqiverif.core import MachineryError
+    from cuqiverif.modelgeom_real import rmat, close
+    from cuqiverif.props.c07 import _gid
+    ex, jobs, futs = started if started is not None else start_tlc(ctx)
+    try:
         results = [f.result() for f in futs]
+    finally:
+        ex.shutdown(wait=True)
     try:
         out = {}
         for (kind, name, inv, _), res in zip(jobs, results):
